@@ -282,6 +282,10 @@ def special_cases(names):
         out.append(('and', None, (p, ('exists', (('qonly', qt), ('q2', B.INT)),
                                       (('le', None, (B.Sym('q2', B.INT),
                                                      x)),)))))
+    # a sort that occurs only as the index sort of an array literal
+    out.append(('eq', None, (('arrayval', ('U', 'OnlyLitIndex'), (B.Int(0),)),
+                             ('arrayval', ('U', 'OnlyLitIndex'),
+                              (B.Int(1),)))))
     # conjunctions whose conjuncts share compound sub-terms
     sh = ('plus', None, (x, ('times', None, (B.Int(3), x))))
     out.append(('and', None, (('le', None, (sh, B.Int(7))),
